@@ -105,6 +105,64 @@ pub fn run(rep: &mut Rep) {
             super::add_counters(rep, &w);
         }
     }
+    // the acknowledgement of an inbound PUBLISH cannot be written (transport write error): the message was received and
+    // belongs to its stream all the same; after the session is resumed the broker re-delivers it (DUP=1) - a QoS 2
+    // message must have been yielded exactly once in total
+    rep.note("acknowledgement write failure: inbound QoS 1/2 PUBLISH (alone, or behind 1-2 earlier messages) whose PUBACK/PUBREC write fails, run() ends, the session is resumed, the broker re-delivers with DUP=1 (and releases): stream contents compared with the model across both connections");
+    for qos in [1u8, 2] {
+        for before in 0..3usize {
+            for sel in 0..2u8 {
+                let id = format!("ackfail:{qos}:{before}:{sel}");
+                bidx += 1;
+                if !rep.take(bidx, &id) {
+                    continue;
+                }
+                let mut w = World::boot(WorldCfg { seed: rep.seed, sei: Some(3600), ..Default::default() });
+                let s0 = w.start(0, Kind::Sub);
+                let s1 = w.start(1, Kind::Sub);
+                w.settle_check();
+                w.deliver_ack(s0, 1, 0, 0);
+                w.deliver_ack(s1, 1, 0, 0);
+                w.settle_check();
+                w.take_stream(s0);
+                w.take_stream(s1);
+                let sid0 = w.sub_id_of(s0).unwrap_or(1);
+                let sid1 = w.sub_id_of(s1).unwrap_or(2);
+                for j in 0..before {
+                    w.in_publish((j % 2) as u8, 20 + j as u16, false, &[sid0], false);
+                    w.settle_check();
+                }
+                let at = w.sim.written_len();
+                w.sim.writer.0.borrow_mut().err_at = Some(at);
+                w.sim.note(|| format!("transport: writes fail from offset {at}"));
+                w.term = Some(Term::WriteErr);
+                let ids: Vec<u32> = if sel == 0 { vec![sid0] } else { vec![sid0, sid1] };
+                w.in_publish(qos, 5, false, &ids, false);
+                w.settle_check();
+                let resumed = w.resume(1, Some(3600), false);
+                w.settle_check();
+                if resumed && !w.blind {
+                    w.expected_acks.clear();
+                    w.in_publish(qos, 5, true, &ids, false);
+                    w.settle_check();
+                    if qos == 2 {
+                        w.in_pubrel(5);
+                        w.settle_check();
+                    }
+                    w.in_publish(0, 0, false, &[sid0], false);
+                    w.settle_check();
+                }
+                finish(&mut w);
+                rep.add("evaluations", 1);
+                rep.add("ack_write_failure_cases", 1);
+                rep.distinct(&("ackfail", qos, before, sel));
+                if super::harvest(rep, &mut w, &id) == 0 {
+                    rep.sample(|| format!("{id}: message kept for its stream although its acknowledgement could not be written; {} items compared", w.counters.stream_items_checked));
+                }
+                super::add_counters(rep, &w);
+            }
+        }
+    }
     // many subscriptions: N streams, messages for PRNG-chosen subsets (1-3 identifiers per PUBLISH), a third of the streams dropped midway
     let counts: Vec<usize> = if rep.quick() { vec![17, 40, 130] } else { vec![15, 16, 17, 31, 33, 64, 65, 127, 129, 257, 600] };
     rep.note(&format!("many subscriptions: {:?} subscribe() calls with live streams, 300 messages each carrying 1-3 of their identifiers, a third of the streams dropped midway", counts));
